@@ -19,8 +19,8 @@ import (
 // Cut: EntryHash64 and Header.BucketHash (xxhash) are uninterpreted: a table indexed by the first
 // key byte (every key of the harness has a distinct first byte).
 
-var verifC03Hash [16]uint64   // EntryHash64 of the key whose first byte is i
-var verifC03Bucket [16]uint   // Header.BucketHash of the key whose first byte is i
+var verifC03Hash [16]uint64 // EntryHash64 of the key whose first byte is i
+var verifC03Bucket [16]uint // Header.BucketHash of the key whose first byte is i
 
 // model of EntryHash64 (the real one is renamed to verifOrig_EntryHash64)
 func EntryHash64(prefix uint32, key []byte) uint64 {
@@ -39,7 +39,7 @@ func VerifC03Lookup() {
 	vsizes := []int{8, 36, 1}
 	V := vsizes[verifChoice("valuesize", verifParam("vsizes", 2))]
 	nb := 1 + verifChoice("buckets", verifParam("maxbuckets", 2)) // number of buckets 1..2
-	n := verifChoice("n", maxN+1)                                  // entries in the queried bucket: 0..N
+	n := verifChoice("n", maxN+1)                                 // entries in the queried bucket: 0..N
 	const mask = uint64(1)<<24 - 1
 
 	// stored keys 0..n-1 live in bucket 0; a second bucket (if any) holds one more key (index n+1)
